@@ -602,6 +602,7 @@ callback_readdata(void * cookie, int status)
 	struct http_cookie * H = cookie;
 	uint8_t * buf;
 	size_t buflen;
+	size_t datalen;
 	size_t waitlen;
 
 	/*
@@ -618,8 +619,21 @@ callback_readdata(void * cookie, int status)
 	if (buflen > H->readlen)
 		buflen = H->readlen;
 
+	/*
+	 * The last two bytes of a chunk are its trailing EOL, not data; we
+	 * read them along with the chunk but don't add them to the body (the
+	 * body may be exactly as large as the limit allows).
+	 */
+	datalen = buflen;
+	if (H->chunked && (H->readlen - buflen < 2)) {
+		if (datalen > 2 - (H->readlen - buflen))
+			datalen -= 2 - (H->readlen - buflen);
+		else
+			datalen = 0;
+	}
+
 	/* Add this to our internal buffer. */
-	if (addbody(H, buf, buflen))
+	if (addbody(H, buf, datalen))
 		return (die(H));
 
 	/* Consume the data. */
@@ -632,9 +646,6 @@ callback_readdata(void * cookie, int status)
 	if (H->readlen == 0) {
 		/* Was this just one chunk from a chunked encoding? */
 		if (H->chunked) {
-			/* Strip the trailing EOL. */
-			H->res.bodylen -= 2;
-
 			/* Get the next chunk. */
 			return (callback_chunkedheader(H, 0));
 		}
